@@ -69,6 +69,14 @@ def operand_lattice():
     for op in ("abs", "neg", "bnot"):
         for a in vals:
             out.append((("U", op, a), "lattice"))
+    # equality of collections that are prefixes of one another, in both orders
+    i1, i2, i3 = ("i", 1), ("i", 2), ("i", 3)
+    colls = [("L", "c", i1, i2), ("L", "c", ("L", "c", i1, i2), i3), ("L", "c", ("L", "c", ("L", "c", i1, i2), i3), ("i", 4)),
+             ("L", "s", i1, i2), ("L", "s", ("L", "s", i1, i2), i3), ("s", "ab"), ("s", "abc"), ("s", "a"), ("s", "")]
+    for op in X.EQ:
+        for a in colls:
+            for b in colls:
+                out.append((("B", op, ("G", a) if a[0] == "L" else a, ("G", b) if b[0] == "L" else b), "lattice"))
     return out
 
 
@@ -290,7 +298,7 @@ def run(tier, seed):
         for ast, inp, host, tag in reapply_family():
             cases.append(X.Case(X.relabel(ast), "min", inp, host, tag))
         lat = operand_lattice()
-        cases += [X.Case(X.relabel(e), "min", "U", "-", tag) for e, tag in (lat if tier == "thorough" else rng.sample(lat, 2500))]
+        cases += [X.Case(X.relabel(e), "min", "U", "-", tag) for e, tag in (lat if tier == "thorough" else rng.sample(lat, 2800))]
         if tier == "thorough":
             cases += cases_for(exhaustive(4, 0, rng), rng, 1)
             cases += random_cases(150000, rng)
